@@ -1,5 +1,6 @@
 # mypy: disable-error-code="dict-item"
 import collections
+import collections.abc
 import concurrent.futures
 import queue
 import re
@@ -34,4 +35,13 @@ BUILTIN_ORIGIN_TO_TYPEVARS: Mapping[type, VarTuple[TypeVar]] = {
     queue.LifoQueue: (_T1, ),
     queue.SimpleQueue: (_T1, ),
     concurrent.futures.Future: (_T1, ),
+    collections.abc.Iterable: (_T1_co, ),
+    collections.abc.Reversible: (_T1_co, ),
+    collections.abc.Collection: (_T1_co, ),
+    collections.abc.Sequence: (_T1_co, ),
+    collections.abc.MutableSequence: (_T1, ),
+    collections.abc.Set: (_T1_co, ),
+    collections.abc.MutableSet: (_T1, ),
+    collections.abc.Mapping: (_T1, _T2),
+    collections.abc.MutableMapping: (_T1, _T2),
 }
